@@ -28,15 +28,16 @@ CONSTANTS Layout,        \* the layout installed in the loop
           MaxTimeouts,   \* polls answered with TimedOut (timed or spurious)
           MaxIntr,       \* polls answered with Interrupted
           FaultAt,       \* 0, or the index of the driver call that fails
-          Emit           \* print schedules
+          Emit,          \* print schedules
+          Burst          \* <<>> or a long sequence of key events that arrives at once (a stalled process, a fast typist): one burst per behaviour
 
 VARIABLES ls,                          \* the loop (LoopCore state)
           kq, tq, kN, tN,              \* environment: unread events, readiness flags
-          arrivals, tabArrivals, timeouts, intrs, calls,
+          arrivals, tabArrivals, timeouts, intrs, calls, bursts,
           sched,                       \* history: the environment's choices, in order
           sent, reads                  \* history: payloads written, events/tablet events read
 
-vars == <<ls, kq, tq, kN, tN, arrivals, tabArrivals, timeouts, intrs, calls, sched, sent, reads>>
+vars == <<ls, kq, tq, kN, tN, arrivals, tabArrivals, timeouts, intrs, calls, bursts, sched, sent, reads>>
 
 End == [t |-> "E", k |-> ""]
 Lbl(a, t, k, x) == [a |-> a, t |-> t, k |-> k, x |-> x]
@@ -44,7 +45,7 @@ Log(l) == sched' = Append(sched, l)
 Running == ls.pc \notin {"done", "failed"}
 
 Init == /\ ls = InitLoop /\ kq = <<>> /\ tq = <<>> /\ kN = FALSE /\ tN = FALSE
-        /\ arrivals = 0 /\ tabArrivals = 0 /\ timeouts = 0 /\ intrs = 0 /\ calls = 0
+        /\ arrivals = 0 /\ tabArrivals = 0 /\ timeouts = 0 /\ intrs = 0 /\ calls = 0 /\ bursts = 0
         /\ sched = <<>> /\ sent = <<>> /\ reads = <<>>
 
 (* ------------------------------ environment ------------------------------ *)
@@ -54,13 +55,21 @@ ArriveKbd ==
   /\ ~(\E i \in 1..Len(kq): kq[i] = End)
   /\ \E e \in KeyEvents \cup {End}: kq' = Append(kq, e) /\ Log(Lbl("arrK", e.t, e.k, ""))
   /\ kN' = TRUE /\ arrivals' = arrivals + 1
-  /\ UNCHANGED <<ls, tq, tN, tabArrivals, timeouts, intrs, calls, sent, reads>>
+  /\ UNCHANGED <<ls, tq, tN, tabArrivals, timeouts, intrs, calls, sent, reads, bursts>>
+
+\* a whole burst of key events arrives at once
+ArriveBurst ==
+  /\ Running /\ ls.pc \in {"poll", "kbd", "tab"} /\ Burst # <<>> /\ bursts = 0
+  /\ ~(\E i \in 1..Len(kq): kq[i] = End)
+  /\ kq' = kq \o Burst /\ sched' = sched \o [i \in 1..Len(Burst) |-> Lbl("arrK", Burst[i].t, Burst[i].k, "")]
+  /\ kN' = TRUE /\ bursts' = 1
+  /\ UNCHANGED <<ls, tq, tN, arrivals, tabArrivals, timeouts, intrs, calls, sent, reads>>
 
 ArriveTab ==
   /\ Running /\ ls.pc \in {"poll", "kbd", "tab"} /\ tabArrivals < MaxTablet
   /\ \E on \in BOOLEAN: tq' = Append(tq, on) /\ Log(Lbl("arrT", IF on THEN "On" ELSE "Off", "", ""))
   /\ tN' = TRUE /\ tabArrivals' = tabArrivals + 1
-  /\ UNCHANGED <<ls, kq, kN, arrivals, timeouts, intrs, calls, sent, reads>>
+  /\ UNCHANGED <<ls, kq, kN, arrivals, timeouts, intrs, calls, sent, reads, bursts>>
 
 (* ------------------------- the loop, call by call ------------------------- *)
 Faulty == FaultAt # 0 /\ calls + 1 = FaultAt
@@ -69,11 +78,11 @@ Called == calls' = calls + 1
 Register ==
   /\ ls.pc = "register" /\ Called
   /\ ls' = OnRegister(ls, ~Faulty)
-  /\ UNCHANGED <<kq, tq, kN, tN, arrivals, tabArrivals, timeouts, intrs, sched, sent, reads>>
+  /\ UNCHANGED <<kq, tq, kN, tN, arrivals, tabArrivals, timeouts, intrs, sched, sent, reads, bursts>>
 
 PollFails ==
   /\ ls.pc = "poll" /\ Faulty /\ Called /\ ls' = OnPoll(ls, [kind |-> "err"])
-  /\ UNCHANGED <<kq, tq, kN, tN, arrivals, tabArrivals, timeouts, intrs, sched, sent, reads>>
+  /\ UNCHANGED <<kq, tq, kN, tN, arrivals, tabArrivals, timeouts, intrs, sched, sent, reads, bursts>>
 
 \* poll reports the devices whose flag is raised, in either order, and clears the flags
 PollDevice ==
@@ -83,21 +92,21 @@ PollDevice ==
         /\ ls' = OnPoll(ls, [kind |-> "dev", devs |-> SelectSeq(order, LAMBDA d: (d = "K" /\ kN) \/ (d = "T" /\ tN))])
         /\ Log(Lbl("poll", "dev", "", IF order[1] = "K" THEN "KT" ELSE "TK"))
   /\ kN' = FALSE /\ tN' = FALSE
-  /\ UNCHANGED <<kq, tq, arrivals, tabArrivals, timeouts, intrs, sent, reads>>
+  /\ UNCHANGED <<kq, tq, arrivals, tabArrivals, timeouts, intrs, sent, reads, bursts>>
 
 \* nothing is ready: a timed poll runs into its time-out, an untimed one times out spuriously
 PollTimeout ==
   /\ ls.pc = "poll" /\ ~Faulty /\ ~kN /\ ~tN /\ timeouts < MaxTimeouts /\ Called
   /\ ls' = OnPoll(ls, [kind |-> "timeout"])
   /\ timeouts' = timeouts + 1 /\ Log(Lbl("poll", "timeout", "", IF Call(ls).timed THEN "timed" ELSE "spurious"))
-  /\ UNCHANGED <<kq, tq, kN, tN, arrivals, tabArrivals, intrs, sent, reads>>
+  /\ UNCHANGED <<kq, tq, kN, tN, arrivals, tabArrivals, intrs, sent, reads, bursts>>
 
 \* a signal interrupts the poll; raised flags stay raised
 PollInterrupted ==
   /\ ls.pc = "poll" /\ ~Faulty /\ intrs < MaxIntr /\ ls.restarts = 0 /\ Called
   /\ ls' = OnPoll(ls, [kind |-> "intr"])
   /\ intrs' = intrs + 1 /\ Log(Lbl("poll", "intr", "", ""))
-  /\ UNCHANGED <<kq, tq, kN, tN, arrivals, tabArrivals, timeouts, sent, reads>>
+  /\ UNCHANGED <<kq, tq, kN, tN, arrivals, tabArrivals, timeouts, sent, reads, bursts>>
 
 ReadKbd ==
   /\ ls.pc = "kbd" /\ Called
@@ -107,7 +116,7 @@ ReadKbd ==
      ELSE IF Head(kq) = End THEN ls' = OnKbd(Layout, ls, [kind |-> "end"]) /\ UNCHANGED <<kq, reads>>
      ELSE /\ ls' = OnKbd(Layout, ls, [kind |-> "one", e |-> Head(kq)])
           /\ kq' = Tail(kq) /\ reads' = Append(reads, [dev |-> "K", e |-> Head(kq), tab |-> ls.inTablet])
-  /\ UNCHANGED <<tq, kN, tN, arrivals, tabArrivals, timeouts, intrs, sent>>
+  /\ UNCHANGED <<tq, kN, tN, arrivals, tabArrivals, timeouts, intrs, sent, bursts>>
 
 ReadTab ==
   /\ ls.pc = "tab" /\ Called
@@ -116,15 +125,15 @@ ReadTab ==
      ELSE IF tq = <<>> THEN ls' = OnTab(Layout, ls, [kind |-> "busy"]) /\ UNCHANGED <<tq, reads>>
      ELSE /\ ls' = OnTab(Layout, ls, [kind |-> "one", on |-> Head(tq)])
           /\ tq' = Tail(tq) /\ reads' = Append(reads, [dev |-> "T", e |-> [t |-> IF Head(tq) THEN "On" ELSE "Off", k |-> ""], tab |-> ls.inTablet])
-  /\ UNCHANGED <<kq, kN, tN, arrivals, tabArrivals, timeouts, intrs, sent>>
+  /\ UNCHANGED <<kq, kN, tN, arrivals, tabArrivals, timeouts, intrs, sent, bursts>>
 
 Send ==
   /\ ls.pc = "send" /\ Called
   /\ ls' = OnSend(ls, ~Faulty)
   /\ sent' = IF Faulty THEN sent ELSE Append(sent, [evs |-> ls.out, chord |-> ls.after = "poll", tab |-> ls.inTablet])
-  /\ UNCHANGED <<kq, tq, kN, tN, arrivals, tabArrivals, timeouts, intrs, sched, reads>>
+  /\ UNCHANGED <<kq, tq, kN, tN, arrivals, tabArrivals, timeouts, intrs, sched, reads, bursts>>
 
-Next == ArriveKbd \/ ArriveTab \/ Register \/ PollFails \/ PollDevice \/ PollTimeout \/ PollInterrupted \/ ReadKbd \/ ReadTab \/ Send
+Next == ArriveKbd \/ ArriveBurst \/ ArriveTab \/ Register \/ PollFails \/ PollDevice \/ PollTimeout \/ PollInterrupted \/ ReadKbd \/ ReadTab \/ Send
 Spec == Init /\ [][Next]_vars
 
 (* ------------------------- design-level properties ------------------------ *)
